@@ -262,3 +262,47 @@ theorem finalize_symmetric (l : Coo K) (r c : Nat) : toFun (finalize l) r c = to
   toFun_makeSymmetric_symm l r c
 
 end Compmech.PanelLoop
+
+namespace Compmech.PanelLoop
+open Compmech.Asm
+variable {K : Type} [Field K]
+
+theorem shift_flatMap {α : Type} (r0 c0 : Nat) (l : List α) (f : α → Coo K) :
+    shift r0 c0 (l.flatMap f) = l.flatMap fun x => shift r0 c0 (f x) := by
+  unfold shift
+  rw [List.map_flatMap]
+
+theorem block_shift (num m r0 : Nat) (e : Fin num → Fin num → Nat → Nat → Nat → Nat → K) (i k j l : Nat) :
+    block num m r0 r0 e i k j l = shift r0 r0 (block num m 0 0 e i k j l) := by
+  unfold block
+  by_cases h : num * (j * m + i) > num * (l * m + k)
+  · have h1 : r0 + num * (j * m + i) > r0 + num * (l * m + k) := by omega
+    have h2 : 0 + num * (j * m + i) > 0 + num * (l * m + k) := by omega
+    rw [if_pos h1, if_pos h2]
+    rfl
+  · have h1 : ¬ r0 + num * (j * m + i) > r0 + num * (l * m + k) := by omega
+    have h2 : ¬ 0 + num * (j * m + i) > 0 + num * (l * m + k) := by omega
+    rw [if_neg h1, if_neg h2, shift_flatMap]
+    refine List.flatMap_congr fun ro _ => ?_
+    unfold shift
+    rw [List.map_map]
+    refine List.map_congr_left fun co _ => ?_
+    simp only [Function.comp, Nat.zero_add, Nat.add_assoc]
+
+/-- PLACEMENT: a panel kernel asked to write at `row0 = col0 = r0` returns exactly its stand-alone (`row0 = col0 = 0`) result
+shifted by `(r0, r0)` — the hypothesis under which Model/Assembly.lean (C13) treats kernels as parameters.  (For
+`row0 ≠ col0` this is FALSE in general: the `row > col` skip compares global positions.) -/
+theorem loopNest_shift (num m n r0 : Nat) (e : Fin num → Fin num → Nat → Nat → Nat → Nat → K) :
+    loopNest num m n r0 r0 e = shift r0 r0 (loopNest num m n 0 0 e) := by
+  unfold loopNest
+  rw [shift_flatMap]
+  refine List.flatMap_congr fun i _ => ?_
+  rw [shift_flatMap]
+  refine List.flatMap_congr fun k _ => ?_
+  rw [shift_flatMap]
+  refine List.flatMap_congr fun j _ => ?_
+  rw [shift_flatMap]
+  refine List.flatMap_congr fun l _ => ?_
+  exact block_shift num m r0 e i k j l
+
+end Compmech.PanelLoop
